@@ -36,8 +36,8 @@ def _pmc_params(tier, path):
         v1 = [(24, 25), (12, 24)]
     else:
         r.shuffle(allp)
-        chosen = ring + allp[:150]
-        v1 = [(24, k) for k in (1, 5, 12, 13, 14, 15, 23, 25, 26)] + allp[150:160]
+        chosen = ring + allp[:80]
+        v1 = [(24, k) for k in (1, 5, 12, 13, 14, 15, 23, 25, 26)] + allp[80:90]
     pairs = []
     for k, (i, j) in enumerate(chosen):
         pairs.append([i, j, 3, 8 if k % 3 else 4])
